@@ -23,7 +23,7 @@ ASSUMPTIONS = ["decimal grids (class B): Brownian increments over intervals whos
                "grid times (unsnapped: 1e-6)"]
 REQUIRED_COUNTERS = ["class_A", "class_B", "multi_output_cases", "noise_diagonal", "noise_scalar", "noise_additive",
                      "noise_general", "loss_subset_not_last", "loss_subset_one_interior", "negative_times",
-                     "chunked_with_extra_state"]
+                     "chunked_with_extra_state", "far_time_axis"]
 THRESHOLDS = {"A": 1e-9, "B_snapped": 1e-9, "B_unsnapped": 1e-6, "C": 1e-9}
 
 
@@ -58,6 +58,13 @@ def run_case(case):
     dt = rng.choice([2.0 ** -3, 2.0 ** -4, 2.0 ** -5]) if kind == "dyadic" else rng.choice([0.05, 0.1, 0.01, 0.025])
     nsteps = rng.choice([4, 10, 20, 30]) if dt > 0.02 else rng.choice([20, 50])
     t0 = rng.choice([0.0, 0.0, 1.0, -0.5, -2.0]) if kind == "dyadic" else rng.choice([0.0, 0.0, 0.3, -0.4])
+    # exact grids on time axes far from zero relative to the step (|t|/dt >= 1e5): the times stay exactly
+    # representable, so these are class A cases in which any end-of-interval logic that compares times relative to |t|
+    # instead of relative to dt shows up as forward and backward passes taking different steps
+    if kind == "dyadic" and rng.random() < 0.3:
+        t0, dt = rng.choice([(1024.0, 2.0 ** -7), (-2048.0, 2.0 ** -6), (64.0, 2.0 ** -11), (4096.0, 2.0 ** -5)])
+        nsteps = rng.choice([10, 20, 30])
+        cnt["far_time_axis"] = 1
     cnt["negative_times"] = int(t0 < 0)
     k = rng.choice([1, 1, 2, 3, 8])  # number of output intervals (1-9 output times)
     k = min(k, nsteps)
@@ -89,7 +96,7 @@ def run_case(case):
     # variant: checkpoint-restart use - the solve is split at an output time, the returned extra state is handed to the
     # second call, and the loss also reads the final extra state (so gradient has to flow through the returned state)
     chunked = len(tsl) > 2 and rng.random() < 0.3
-    cnt["chunked_with_extra_state"] = int(chunked)
+    cnt["chunked_with_extra_state", "far_time_axis"] = int(chunked)
     cut = rng.randrange(1, len(tsl) - 1) if chunked else None
     we = [torch.randn(s_, generator=gen) for s_ in ((B, d), (B, d) if nt == "diagonal" else (B, d, sde.m), (B, d))]
 
